@@ -309,7 +309,7 @@ def crc_poison(n):
     return zlib.crc32(b"\xa5" * n)
 
 
-def execute(cfg, lines, drv, env, wdir, tag="h", shim=None, call_timeout=30):
+def execute(cfg, lines, drv, env, wdir, tag="h", shim=None, call_timeout=15):
     """Run `lines` on a fresh backing file and judge them.  Returns a dict with the first
     violation (key, what, index of the offending line) or None, plus observation stats."""
     img = os.path.join(wdir, tag + ".img")
@@ -334,7 +334,8 @@ def execute(cfg, lines, drv, env, wdir, tag="h", shim=None, call_timeout=30):
     infer = (cfg["cache"] == "on" and not cfg["wt"] and cfg["kind"] != "undo")
     st = {"ops": {}, "dirty_evictions": 0, "overlap_writes": 0, "direct_writes": 0,
           "byte_writes": 0, "file_compares": 0, "hook_checks": 0, "reads_checked": 0,
-          "blocks_read": 0, "fsync_seen": 0, "reopens": 0, "wb_unimplemented": 0, "blocks": set(), "executed": 0}
+          "blocks_read": 0, "fsync_seen": 0, "reopens": 0, "wb_unimplemented": 0,
+          "blocks": set(), "executed": 0}
     bs, off = 1024, 0
     pending = []                # [a, b) written through the cache, not yet seen in the file
     recent = []                 # byte ranges of the 8 most recently cache-accessed blocks
@@ -715,15 +716,16 @@ def run_fault(cfg, lines, drv, env, wdir, shim, k, mode, tag="f"):
                 "FAILWRITE_MODE": mode})
     if k == 0:
         env["FAILWRITE_TRACE"] = "1"
-    r = run.run([drv], env=env, stdin=("\n".join(body) + "\nquit\n").encode(), timeout=120,
+    r = run.run([drv], env=env, stdin=("\n".join(body) + "\nquit\n").encode(), timeout=30,
                 cap=16 << 20)
-    if r.timed_out:
-        return "timeout", None
     out = r.text.split("\n")
+    if r.timed_out:
+        nres = sum(1 for l in out if l.startswith("r "))
+        injected = any(l.startswith("!FAULT") for l in out)
+        return "timeout", (injected, op_class(body[min(nres, len(body) - 1)]),
+                           body[min(nres, len(body) - 1)][:60])
     if k == 0:
         return "count", sum(1 for l in out if l.startswith("!W "))
-    if r.rc != 0 or r.sig:
-        return "crash", "rc=%s sig=%s %s" % (r.rc, r.sig, r.etext[-600:])
     results = []
     fault_at = None
     for l in out:
@@ -732,21 +734,24 @@ def run_fault(cfg, lines, drv, env, wdir, shim, k, mode, tag="f"):
                 fault_at = len(results)
         elif l.startswith("r "):
             results.append(l.split())
+    died = "rc=%s sig=%s %s" % (r.rc, r.sig, r.etext[-600:]) if (r.rc != 0 or r.sig) else None
     if fault_at is None:
-        return "nofault", None
-    if fault_at >= len(results):
-        return "crash", "no result line after the injected failure"
+        return ("crash", died) if died else ("nofault", None)
     for j in range(fault_at, len(results)):
         rp = results[j]
         if len(rp) >= 3 and rp[2] != "0" and rp[2] not in BENIGN.get(rp[1], ()):
+            # what a caller does with the channel after the error is not judged here
             return "reported", (op_class(body[fault_at]), op_class(body[j]), j - fault_at)
+    if died:
+        return "crash", "died before reporting the failure injected during %r: %s" % (
+            body[min(fault_at, len(body) - 1)][:50], died)
     return "unreported", (op_class(body[fault_at]), body[fault_at][:60], fault_at)
 
 
 def _run_fault_history(arg):
     drv, env, shim, seed, idx, given = arg
     out = {"idx": idx, "runs": 0, "reported": 0, "viol": [], "inconclusive": [], "where": {},
-           "inflight": {}, "nwrites": 0, "crash": []}
+           "inflight": {}, "nwrites": 0, "crash": [], "hang": []}
     if given:
         cfg, lines, ks = given["cfg"], given["lines"], [(given["k"], given["mode"])]
     else:
@@ -766,6 +771,13 @@ def _run_fault_history(arg):
                 ks.append((k, ("enospc", "short")[k % 2]))
         for k, mode in ks:
             v, d = run_fault(cfg, lines, drv, env, w.dir, shim, k, mode)
+            if v == "timeout":          # inconclusive until it repeats
+                v, d = run_fault(cfg, lines, drv, env, w.dir, shim, k, mode)
+                if v == "timeout" and d[0]:
+                    out["hang"].append({"k": k, "mode": mode, "op": d[1], "line": d[2],
+                                        "lines": lines})
+                    out["runs"] += 1
+                    continue
             out["runs"] += 1
             if v == "reported":
                 out["reported"] += 1
@@ -944,7 +956,7 @@ def tsan_keys(text):
                 uniq.append(f)
         keys.append(("C17 tsan %s in %s" % (m.group(1).strip(), "/".join(sorted(uniq[:3]))),
                      text[m.start():m.start() + 1800]))
-    return keys
+    return keys[:2]         # one broken lock produces dozens of reports; two are enough
 
 
 def parse_round(line):
@@ -1272,8 +1284,18 @@ def _main(rep, tier, seed, replay, scale, plain, tsan, drv_p, drv_a, env_p, env_
                           "close returned an error | config: %s" %
                           (v["k"], v["mode"], v["line"], cfgc), replay=case,
                           files={"script.txt": ("\n".join(v["lines"]) + "\n").encode()})
+        for v in r["hang"]:
+            key = "C17 call never returns after an injected write failure: %s" % v["op"]
+            if key in seen_keys:
+                continue
+            seen_keys.add(key)
+            rep.violation(key, "write #%d failed (%s) and line %r never returned (twice)" %
+                          (v["k"], v["mode"], v["line"]),
+                          replay={"part": "fault", "idx": r["idx"], "cfg": r["cfg"],
+                                  "lines": v["lines"], "k": v["k"], "mode": v["mode"]},
+                          files={"script.txt": ("\n".join(v["lines"]) + "\n").encode()})
         for v in r["crash"]:
-            key = "C17 driver crash after injected write failure"
+            key = "C17 driver dies after an injected write failure without reporting it"
             if key in seen_keys:
                 continue
             seen_keys.add(key)
